@@ -130,10 +130,89 @@ pub fn fixed_cfgs() -> Vec<(String, Vec<u16>)> {
     v
 }
 
+/// Family aimed at keyberon/src/layout.rs `resolve_coord`: a transparent action on the virtual-key
+/// row (row 1) that falls through every layer resolves to no-op, NOT to `src_keys[column]` - the
+/// virtual key v30 sits in the column whose number is the key code of `a` (30), v31 in the column of
+/// `s`, so reading `src_keys` there would type a defsrc key.
+fn virtual_row_family(r: &mut Rng, thorough: bool, lines: &mut Vec<String>) {
+    let ks = [code("a"), code("b"), code("s")];
+    for (ls, dg) in [(true, false), (false, true), (true, true), (false, false)] {
+        let mut cfg = format!(
+            "(defcfg transparent-key-resolution {} delegate-to-first-layer {})\n(defsrc a b s)\n(defvirtualkeys",
+            if ls { "layer-stack" } else { "to-base-layer" },
+            if dg { "yes" } else { "no" }
+        );
+        for v in 0..32 {
+            cfg.push_str(&format!(
+                " v{v} {}",
+                match v {
+                    1 => "x",
+                    2 => "(layer-while-held l1)",
+                    3 => "use-defsrc",
+                    30 => "_",
+                    31 => "(multi _ w)",
+                    _ => "XX",
+                }
+            ));
+        }
+        cfg.push_str(")\n(deflayer l0 q (layer-while-held l1) _)\n(deflayer l1 _ (layer-switch l1) y)\n");
+        let vs = [30u16, 31, 3, 1, 2];
+        // every virtual key alone, and under the layer held by a real / by a virtual key
+        for v in vs {
+            for under in [None, Some(HEv::Press(0, ks[1])), Some(HEv::Press(1, 2))] {
+                let mut h = vec![];
+                if let Some(u) = &under {
+                    h.push(u.clone());
+                    h.push(HEv::Tick(2));
+                }
+                h.push(HEv::Press(1, v));
+                h.push(HEv::Tick(2));
+                h.push(HEv::Press(0, ks[0]));
+                h.push(HEv::Tick(1));
+                h.push(HEv::Press(0, ks[2]));
+                h.push(HEv::Tick(2));
+                h.push(HEv::Release(1, v));
+                h.push(HEv::Tick(1));
+                h.push(HEv::Release(0, ks[0]));
+                h.push(HEv::Release(0, ks[2]));
+                match under {
+                    Some(HEv::Press(row, y)) => h.push(HEv::Release(row, y)),
+                    _ => {}
+                }
+                h.push(HEv::Tick(6));
+                lines.push(mk_line("LAY", false, &cfg, &h));
+            }
+        }
+        // random consistent histories over the three real keys and the five virtual keys
+        for _ in 0..(if thorough { 300 } else { 20 }) {
+            let n_ev = r.range(2, 14) as usize;
+            let all: Vec<u16> = (0..8).collect();
+            let h0 = consistent_history(r, &all, n_ev, &[0, 1, 1, 2], 6);
+            let h: Vec<HEv> = h0
+                .into_iter()
+                .map(|e| match e {
+                    HEv::Press(_, i) if i < 3 => HEv::Press(0, ks[i as usize]),
+                    HEv::Release(_, i) if i < 3 => HEv::Release(0, ks[i as usize]),
+                    HEv::Press(_, i) => HEv::Press(1, vs[i as usize - 3]),
+                    HEv::Release(_, i) => HEv::Release(1, vs[i as usize - 3]),
+                    t => t,
+                })
+                .collect();
+            lines.push(mk_line("LAY", false, &cfg, &h));
+        }
+    }
+}
+
 pub fn gen(tier: &str, seed: u64) -> Vec<String> {
     let mut r = Rng::new(seed ^ 0xC04);
     let thorough = tier == "thorough";
     let mut lines = vec![];
+    if tier == "cov" || tier == "covt" {
+        // only the families that were added to reach otherwise unexecuted code (debugging aid;
+        // "covt" = their thorough-tier size)
+        virtual_row_family(&mut r, tier == "covt", &mut lines);
+        return lines;
+    }
     // exhaustive small histories on fixed configs
     let n_ex = if thorough { 6 } else { 4 };
     for (cfg, keys) in fixed_cfgs() {
@@ -159,6 +238,8 @@ pub fn gen(tier: &str, seed: u64) -> Vec<String> {
         }
         lines.push(mk_line("LAY", false, &cfg, &h));
     }
+    // transparent actions on the virtual-key row
+    virtual_row_family(&mut r, thorough, &mut lines);
     lines
 }
 
